@@ -741,7 +741,10 @@ func (this *ANSRangeDecoder) Read(block []byte) (int, error) {
 			}
 		} else {
 			if this.bsVersion == 1 {
-				this.decodeChunkV1(block[startChunk:endChunk])
+				if this.decodeChunkV1(block[startChunk:endChunk]) == false {
+					err = errors.New("Invalid bitstream: incorrect chunk size")
+					break
+				}
 			} else {
 				if this.decodeChunkV2(block[startChunk:endChunk]) == false {
 					err = errors.New("Invalid bitstream: incorrect chunk size")
@@ -756,9 +759,14 @@ func (this *ANSRangeDecoder) Read(block []byte) (int, error) {
 	return startChunk, err
 }
 
-func (this *ANSRangeDecoder) decodeChunkV1(block []byte) {
+func (this *ANSRangeDecoder) decodeChunkV1(block []byte) bool {
 	// Read chunk size
 	sz := ReadVarInt(this.bitstream) & (_ANS_MAX_CHUNK_SIZE - 1)
+
+	if int(sz) > max(2*len(block), 256) {
+		// protect against corrupted bitstream
+		return false
+	}
 
 	// Read initial ANS state
 	st0 := int(this.bitstream.ReadBits(32))
@@ -769,7 +777,7 @@ func (this *ANSRangeDecoder) decodeChunkV1(block []byte) {
 	}
 
 	if sz == 0 {
-		return
+		return true
 	}
 
 	// Add some padding
@@ -841,6 +849,8 @@ func (this *ANSRangeDecoder) decodeChunkV1(block []byte) {
 			prv = int(cur)
 		}
 	}
+
+	return true
 }
 
 func (this *ANSRangeDecoder) decodeSymbol(n int, st int, sym decSymbol, mask int) (int, int) {
